@@ -236,7 +236,7 @@ func (m *monitor) observe(si *stepInfo, s *snap, ctx func() string) {
 			m.lastRel = si.step
 			m.stats["model.release"]++
 			var c uint64
-			if m.verdict[i] == vSuccess {
+			if m.verdict[i] == vSuccess && !m.txns[i].Fails {
 				c = m.txns[i].Commit
 			}
 			if c > m.maxRel[k] {
